@@ -328,6 +328,7 @@ func runC19(c *core.Ctx, o Options) {
 				ob.Ok("%d success path(s)", nOK)
 			}
 		}
+		s.checkSaveHandler("H3")
 		// no other function registers an all-types outgoing handler before the constructor's: registrations elsewhere happen on an existing session
 		for _, r := range s.regs {
 			if !r.In && r.Key == "ALL" && r.Parent.Name() != "setStorageCallbacks" {
